@@ -38,7 +38,12 @@ def residue(pep):
             k = ('G', min(i, j), max(i, j))
             out[k] = out[k] + S[i, j] if k in out else S[i, j]
     for psd in pep._list_of_psd_sent_to_wrapper:
-        Z = psd.eval_dual()
+        # the library exposes, per LMI, the PSD dual matrix (eval_dual) and - documented attribute
+        # entries_dual_variable_value - the multipliers of its entries, whose symmetric part is that matrix; the
+        # identity is stated with the entry multipliers when they are provided
+        Z = getattr(psd, 'entries_dual_variable_value', None)
+        if Z is None:
+            Z = psd.eval_dual()
         for i in range(psd.shape[0]):
             for j in range(psd.shape[1]):
                 add(canon(psd[i, j]), Z[i, j])
